@@ -6,6 +6,7 @@ import CaresLemmas.ChanPolicyProbe2Frame
 import CaresLemmas.ChanPolicyProbe2CountRun
 import CaresLemmas.ChanPolicyProbe2Seq
 import CaresLemmas.ChanPolicyProbe2Once
+import CaresLemmas.ChanPolicyProbe3Run
 /-!
 # C09 — Server selection follows the documented failover policy
 
@@ -34,6 +35,13 @@ from the observation `s.obs`; every theorem holds for all observations.
   queries (the request and one probe; a probe's own send: one) plus two per request started by a callback reaction
   meanwhile; `send_query_probes_once` (every `go`): `ares_send_query` enters the lottery at most once, last;
   `failure_releases_probe_pending`, `failed_probe_releases_pending` — a server's failure clears `probe_pending` (F48-C09).
+* the probe's completion callback releases the flag (F49-C09, repaired: `server_probe_cb` gets the probed server as its
+  argument and resets `probe_pending` on every way a probe query can end): `probe_callback_releases` (closed form of
+  the callback); `probe_pending_has_probe` — for every fuel, call and state, a completed run keeps the invariant
+  `ProbeInv`: *a server is flagged only while a query owned by `probe <its id>` is stored*;
+  `cancel_releases_probes` — after a completed `ares_cancel` every query that was linked is gone and a flagged server
+  has a probe created during the cancel (none, when the callbacks start no request: then every flag is down);
+  `probe_early_failure_releases` — the early failures of the probe's own `ares_send_nolock` reset the flag at once.
 -/
 namespace Cares.C09
 open Cares.Chan
@@ -143,18 +151,19 @@ theorem probe_only_when_eligible (go : Call → St → St × Ret) (srvId key : N
       pv.nextRetry ≤ s.now ∧ pv.id ≠ srvId ∧ s.cfg.retryChance ≠ 0 ∧
       bodyProbe go srvId key s =
         ((go (.sendNolock (some pv.id) true true
-              { name := q.name, qtype := q.qtype, qclass := q.qclass, rd := q.rd, edns := q.edns } .probe [])
+              { name := q.name, qtype := q.qtype, qclass := q.qclass, rd := q.rd, edns := q.edns } (.probe pv.id) [])
             (s.draw2.2.modServer pv.id fun v => { v with probePending := true })).1, .ok) :=
   Cares.Chan.probe_only_when_eligible go srvId key s
 
 /-- a probe request bypasses the cache and is created with `no_retries` -/
-theorem probe_request_flags (go : Call → St → St × Ret) (reqSrv : Option Nat) (spec : ReqSpec) (s : St) :
+theorem probe_request_flags (go : Call → St → St × Ret) (reqSrv : Option Nat) (spec : ReqSpec) (pid : Nat) (s : St) :
     (∃ st s0, s0.cache = s.cache ∧
-      bodySendNolock go reqSrv true true spec .probe [] s = ((go (.callback .probe [] st 0 none) s0).1, st)) ∨
+      bodySendNolock go reqSrv true true spec (.probe pid) [] s =
+        ((go (.callback (.probe pid) [] st 0 none) s0).1, st)) ∨
     (∃ s', s'.cache = s.cache ∧
       (∃ q, s'.qs = s.qs ++ [q] ∧ q.key = s.nextKey ∧ q.noRetries = true ∧ q.tryCount = 0) ∧
-      bodySendNolock go reqSrv true true spec .probe [] s = go (.sendQuery reqSrv s.nextKey) s') :=
-  sendNolock_probe_flags go reqSrv true spec .probe [] s
+      bodySendNolock go reqSrv true true spec (.probe pid) [] s = go (.sendQuery reqSrv s.nextKey) s') :=
+  sendNolock_probe_flags go reqSrv true spec (.probe pid) [] s
 
 /-- … and a `no_retries` request is never re-sent: `ares_requeue_query` ends it -/
 theorem probe_never_resent (go : Call → St → St × Ret) (key : Nat) (st : Status) (inc : Bool)
@@ -203,11 +212,12 @@ example : ¬ PickOk true [0, 1, 2] (0, 0, false, [(1, 0), (2, 0), (0, 1)]) := by
   simp at hm
 
 /-- with `retryChance = 1` the same request also sends a probe: a second request (key 1) explicitly to the failed
-    server 0, owned by `probe`, with `no_retries`; server 0 is marked as being probed -/
+    server 0, owned by `probe 0` (the callback's argument is the probed server), with `no_retries`; server 0 is marked
+    as being probed -/
 example :
     let r := (exec 60 (.sendNolock none false false exSpec (.user 1) []) { exSt with cfg := { retryChance := 1 } }).1
     r.picks = [(0, 1, false, [(1, 0), (2, 0), (0, 1)]), (1, 0, true, [(1, 0), (2, 0), (0, 1)])] ∧
-    r.qs.map (fun q => (q.key, q.noRetries, q.owner)) = [(0, false, .user 1), (1, true, .probe)] ∧
+    r.qs.map (fun q => (q.key, q.noRetries, q.owner)) = [(0, false, .user 1), (1, true, .probe 0)] ∧
     r.servers.map (fun v => (v.id, v.probePending)) = [(0, true), (1, false), (2, false)] ∧
     r.outOfFuel = false ∧ r.modelFaults = [] := by decide
 
@@ -220,8 +230,9 @@ example : (exSt.incFailures 1 false).sortedServers.map (·.id) = [2, 0, 1] ∧
 /-! ## probes over whole runs -/
 
 /-- **probe_only_failed_servers_run.**  `execG` is `exec` with an assertion at the entry of every nested call
-    (`guardGo`): a call `sendNolock … owner := probe` — the creation of a probe query — asserts `probeSendOk`
-    (spelled out by `probe_guard_spec` below), a call `probe srvId key` (`ares_probe_failed_server`) asserts `trigOk`;
+    (`guardGo`): a call `sendNolock … owner := probe pid` — the creation of a probe query — asserts `probeSendOk`
+    and that `pid`, the callback's argument, is the server the probe is addressed to (spelled out by
+    `probe_guard_spec` below), a call `probe srvId key` (`ares_probe_failed_server`) asserts `trigOk`;
     a failed assertion aborts the run the way running out of fuel does (`probe_guard_failure_is_visible`).
     For every fuel, every call whose own entry assertion holds — every call other than those two, in particular every
     API-level one (`probeGuard_api`) — and every state, the two runs are equal: no assertion fails.  In particular
@@ -236,13 +247,14 @@ theorem probe_only_failed_servers_run (fuel : Nat) (c : Call) (s : St) (hc : Pro
     requested id has failures, its retry time has passed at this moment, and it has just been marked as being probed;
     the most recent server choice in the pick log — the request that triggered the probe — was an ordinary attempt
     (no server requested) at a *different* server, one that had no failures.  The probe itself is sent with
-    `nocache`, `noretry`, no reactions, to that server explicitly. -/
-theorem probe_guard_spec (srv : Option Nat) (nocache noretry : Bool) (spec : ReqSpec) (react : List Nat) (s : St)
-    (h : ProbeGuard (.sendNolock srv nocache noretry spec .probe react) s = true) :
-    ∃ id, srv = some id ∧ nocache = true ∧ noretry = true ∧ react = [] ∧ s.cfg.retryChance ≠ 0 ∧
+    `nocache`, `noretry`, no reactions, to that server explicitly, and its callback will release that same server
+    (`pid = id`). -/
+theorem probe_guard_spec (srv : Option Nat) (nocache noretry : Bool) (spec : ReqSpec) (pid : Nat) (react : List Nat)
+    (s : St) (h : ProbeGuard (.sendNolock srv nocache noretry spec (.probe pid) react) s = true) :
+    ∃ id, srv = some id ∧ pid = id ∧ nocache = true ∧ noretry = true ∧ react = [] ∧ s.cfg.retryChance ≠ 0 ∧
       (∃ v ∈ s.servers, v.id = id ∧ 0 < v.failures ∧ v.nextRetry ≤ s.now ∧ v.probePending = true) ∧
       ∃ key chosen prio, s.picks.getLast? = some (key, chosen, false, prio) ∧ chosen ≠ id ∧ (chosen, 0) ∈ prio :=
-  probeGuard_spec srv nocache noretry spec react s h
+  probeGuard_spec srv nocache noretry spec pid react s h
 
 /-- with distinct server indices (as `ares_servers_update` assigns them) the server found eligible is the one the
     probe is addressed to (`server? id`, what `ares_send_query` looks up for a requested server) -/
@@ -252,10 +264,10 @@ theorem probe_guard_server (id : Nat) (s : St) (hn : s.IdsNodup) (h : probeSendO
 
 /-- every call other than `probe` and a probe's `sendNolock` carries no assertion -/
 theorem probeGuard_api (c : Call) (s : St) (h1 : ∀ a b, c ≠ .probe a b)
-    (h2 : ∀ a b d e f, c ≠ .sendNolock a b d e .probe f) : ProbeGuard c s = true := by
+    (h2 : ∀ a b d e p f, c ≠ .sendNolock a b d e (.probe p) f) : ProbeGuard c s = true := by
   unfold ProbeGuard
   split
-  · exact absurd rfl (h2 _ _ _ _ _)
+  · exact absurd rfl (h2 _ _ _ _ _ _)
   · exact absurd rfl (h1 _ _)
   · rfl
 
@@ -274,7 +286,7 @@ theorem probe_guard_failure_is_visible :
     not a theorem of the model nor a property of the code: the lottery consumes random draws, and a probe whose
     write fails closes the connection it shares with other queries to that server — see the notes.) -/
 theorem probe_noninterference_run (fuel : Nat) (srv : Option Nat) (key : Nat) (st : Status) (rec : Option Reply)
-    (s : St) (q : Query) (hq : s.query? key = some q) (ho : q.owner = .probe) :
+    (s : St) (q : Query) (pid : Nat) (hq : s.query? key = some q) (ho : q.owner = .probe pid) :
     let r := (exec fuel (.endQuery srv key st rec) s).1
     r.outOfFuel = false → r.qs = s.qs.filter (·.key != key) ∧ SameOutcome s r := by
   intro r hf
@@ -282,16 +294,32 @@ theorem probe_noninterference_run (fuel : Nat) (srv : Option Nat) (key : Nat) (s
   · have := exec_endQuery_oof fuel h2 srv key st rec s q hq
     rw [this] at hf; cases hf
   · obtain ⟨n, rfl⟩ : ∃ n, fuel = n + 2 := ⟨fuel - 2, by omega⟩
-    have e : r = endProbeSt srv key st rec q s := by
+    have e : r = endProbeSt pid srv key st rec q s := by
       show (exec (n + 2) (.endQuery srv key st rec) s).1 = _
-      rw [exec_endQuery_probe n srv key st rec s q hq ho]
+      rw [exec_endQuery_probe n srv key st rec s q pid hq ho]
     rw [e]
-    exact endProbeSt_frame srv key st rec q s
+    exact endProbeSt_frame pid srv key st rec q s
 
-/-- … and the callback of a probe (`server_probe_cb`) is a no-op -/
-theorem probe_callback_noop (fuel : Nat) (react : List Nat) (st : Status) (timeouts : Nat) (rec : Option Reply)
-    (s : St) : exec (fuel + 1) (.callback .probe react st timeouts rec) s = (s, .ok) :=
-  exec_callback_probe fuel react st timeouts rec s
+/-- … and the callback of a probe (`server_probe_cb`, whose argument is the probed server `pid`) does exactly one
+    thing, whatever the status it is called with and whoever calls it (`end_query`, the walk of `ares_cancel` /
+    `ares_destroy`, an early failure inside the probe's own `ares_send_nolock`): it resets `probe_pending` of every
+    server record with id `pid`.  Every other server record is untouched, no flag is set, the ids keep their order, and
+    nothing outside `servers` changes (`SameOutcome`, and literally: the result is `s` with that one field rewritten).
+    (Repair of finding F49-C09; before it the callback was a no-op — `probe_callback_noop` — and a probe ended
+    without `end_query` left the flag set for good.) -/
+theorem probe_callback_releases (fuel : Nat) (pid : Nat) (react : List Nat) (st : Status) (timeouts : Nat)
+    (rec : Option Reply) (s : St) :
+    let r := exec (fuel + 1) (.callback (.probe pid) react st timeouts rec) s
+    r = ({ s with servers := s.servers.map fun v => if v.id == pid then { v with probePending := false } else v }, .ok) ∧
+    (∀ v ∈ r.1.servers, v.id = pid → v.probePending = false) ∧
+    (∀ w : Server, w.id ≠ pid → (w ∈ r.1.servers ↔ w ∈ s.servers)) ∧
+    (∀ v ∈ r.1.servers, v.probePending = true → ∃ w ∈ s.servers, w.id = v.id ∧ w.probePending = true) ∧
+    r.1.servers.map (·.id) = s.servers.map (·.id) ∧ SameOutcome s r.1 := by
+  intro r
+  have e : r = (releaseProbe pid s, .ok) := exec_callback_probe fuel pid react st timeouts rec s
+  obtain ⟨h1, h2, h3, h4⟩ := releaseProbe_spec pid s
+  rw [e]
+  exact ⟨rfl, h1, h2, h3, h4, SameOutcome.releaseProbe pid s⟩
 
 /-- **failure_releases_probe_pending.**  `server_increment_failures` ends the server's probe episode: afterwards every
     server with that id has `probe_pending = false`, every other server is exactly as it was, and the ids (and their
@@ -309,9 +337,11 @@ theorem failure_releases_probe_pending (s : St) (id : Nat) (tcp : Bool) :
     the probe to `ares_requeue_query` — the time-out (`process_timeouts`, first conjunct, for every `go`), a
     connection that cannot be opened or a write that fails (`ares_send_query`; ECONNREFUSED on the write goes through
     `handle_conn_error` first: run `exShare` in `C09Runs.lean`).  Second conjunct, for every fuel and state: the whole
-    run of that `requeue` on a probe (owner `probe`, `no_retries`) leaves the servers exactly as the failure left
-    them, so when it completes the probed server has `probe_pending = false` and `ares_probe_failed_server` (which
-    skips servers with the flag set, `probe_only_when_eligible`) can probe it again once its retry time has passed. -/
+    run of that `requeue` on a probe (owner `probe pid`, `no_retries`) leaves the servers as the failure left them
+    except that the probe's callback resets `probe_pending` of the probed server `pid` too (since the repair of
+    F49-C09; `id = pid` on these paths), so when it completes the failed and the probed server have
+    `probe_pending = false` and `ares_probe_failed_server` (which skips servers with the flag set,
+    `probe_only_when_eligible`) can probe again once the retry time has passed. -/
 theorem failed_probe_releases_pending :
     (∀ (go : Call → St → St × Ret) (s : St) (key : Nat) (q : Query) (c : Conn),
       s.byTimeout.head? = some key → s.query? key = some q → expired s.now q.deadline = true →
@@ -319,20 +349,125 @@ theorem failed_probe_releases_pending :
       bodyProcessTimeouts go s = go .processTimeouts (go (.requeue key .timeout true none false)
         ((s.modQuery key fun q => { q with timeouts := q.timeouts + 1 }).incFailures c.srv q.usingTcp)).1) ∧
     (∀ (fuel key : Nat) (st : Status) (inc : Bool) (rec : Option Reply) (deferred : Bool) (s : St) (q : Query)
-      (id : Nat) (tcp : Bool), s.query? key = some q → q.owner = .probe → q.noRetries = true →
+      (id pid : Nat) (tcp : Bool), s.query? key = some q → q.owner = .probe pid → q.noRetries = true →
       let s1 := s.incFailures id tcp
       let r := (exec fuel (.requeue key st inc rec deferred) s1).1
-      r.outOfFuel = false → r.servers = s1.servers ∧ ∀ v ∈ r.servers, v.id = id → v.probePending = false) := by
+      r.outOfFuel = false →
+        r.servers = s1.servers.map (fun v => if v.id == pid then { v with probePending := false } else v) ∧
+        ∀ v ∈ r.servers, v.id = id ∨ v.id = pid → v.probePending = false) := by
   refine ⟨?_, ?_⟩
   · intro go s key q c hh hq he hc
     unfold bodyProcessTimeouts
     simp only [hh, hq, he, hc, Bool.not_true, Bool.false_eq_true, ↓reduceIte]
-  · intro fuel key st inc rec deferred s q id tcp hq ho hnr s1 r hf
-    have hsv : r.servers = s1.servers :=
-      exec_requeue_probe_frame fuel key st inc rec deferred s1 q ((query?_incFailures s id tcp key).trans hq) ho hnr hf
-    refine ⟨hsv, fun v hv => ?_⟩
+  · intro fuel key st inc rec deferred s q id pid tcp hq ho hnr s1 r hf
+    have hsv : r.servers = (releaseProbe pid s1).servers :=
+      exec_requeue_probe_frame fuel key st inc rec deferred s1 q pid
+        ((query?_incFailures s id tcp key).trans hq) ho hnr hf
+    refine ⟨hsv, fun v hv hid => ?_⟩
     rw [hsv] at hv
-    exact (incFailures_probePending s id tcp).1 v hv
+    obtain ⟨h1, h2, _, _⟩ := releaseProbe_spec pid s1
+    by_cases hp : v.id = pid
+    · exact h1 v hv hp
+    · rcases hid with hid | hid
+      · exact (incFailures_probePending s id tcp).1 v ((h2 v hp).1 hv) hid
+      · exact absurd hid hp
+
+/-! ### F49-C09 (repaired): the probe's callback releases `probe_pending` on every way the probe can end -/
+
+/-- **probe_pending_has_probe.**  `ProbeInv s` (`= ProbeInvH none s`): every stored query has a key below the
+    allocation counter, and every server flagged `probe_pending` has a stored query owned by `probe <its id>`.
+    For every fuel, every call and every state: a completed run keeps it (and the key counter never decreases).
+    `preHole c` is `none` for every call except the two that belong to a probe episode itself — the probe's own
+    `ares_send_nolock` and the probe's completion callback, `preHole = some <probed server>`: those may be entered with
+    the flag of *that* server set and no query for it (`ares_probe_failed_server` sets the flag first; `ares_cancel`
+    releases the query before the callback) and they too leave with the full invariant: the query now exists, or
+    `server_probe_cb` has reset the flag.  This is the repaired property behind F49-C09: before the repair a probe
+    ended by `ares_cancel` or by an early failure of its `ares_send_nolock` left the flag set with no probe query
+    anywhere, for good. -/
+theorem probe_pending_has_probe (fuel : Nat) (c : Call) (s : St) (h : ProbeInvH (preHole c) s) :
+    let r := (exec fuel c s).1
+    r.outOfFuel = false → ProbeInv r ∧ s.nextKey ≤ r.nextKey :=
+  exec_probeInv fuel c s h
+
+/-- every call other than a probe's own send / callback needs (and keeps) the plain invariant -/
+theorem preHole_api (c : Call) (h1 : ∀ a b d e p f, c ≠ .sendNolock a b d e (.probe p) f)
+    (h2 : ∀ p a b d e, c ≠ .callback (.probe p) a b d e) : preHole c = none := by
+  cases c
+  case sendNolock a b d e o f =>
+    cases o
+    case probe p => exact absurd rfl (h1 a b d e p f)
+    all_goals rfl
+  case callback o a b d e =>
+    cases o
+    case probe p => exact absurd rfl (h2 p a b d e)
+    all_goals rfl
+  all_goals rfl
+
+/-- **cancel_releases_probes.**  Start state: `CancelPre s` — `ProbeInv s`, the keys linked in `all` have been
+    allocated (`< nextKey`), and every stored probe query is linked in `all` (the last two follow from C01's invariant
+    between API calls: the stored queries are exactly the linked ones; the first is `probe_pending_has_probe`).  For every fuel: when `ares_cancel` completes
+    without raising a model fault,
+    * the invariant holds again;
+    * every query that was linked in `all` — the probes in flight among them — has left the store;
+    * a server that is flagged afterwards has a probe query created **during** the cancel (key `≥` the old `nextKey`):
+      the only way is a completion callback that starts a new request, which may legitimately probe the server again;
+    * so if no query was created during the cancel (`nextKey` unchanged) — in particular on a channel without compound
+      requests whose callbacks make no API calls (`clients = []`, `reactions = []`) — **every** server has
+      `probe_pending = false`: each server that had a probe in flight can be probed again.
+    (`ares_destroy` walks the same loop: `bodyCancelLoop` is covered by `probe_pending_has_probe`.) -/
+theorem cancel_releases_probes (fuel : Nat) (s : St) (hp : CancelPre s) :
+    let r := (exec fuel .cancel s).1
+    r.outOfFuel = false → r.modelFaults = s.modelFaults →
+      ProbeInv r ∧ (∀ k ∈ s.all, r.query? k = none) ∧
+      (∀ v ∈ r.servers, v.probePending = true →
+        ∃ k q, s.nextKey ≤ k ∧ r.query? k = some q ∧ q.owner = .probe v.id) ∧
+      (r.nextKey = s.nextKey → ∀ v ∈ r.servers, v.probePending = false) ∧
+      (s.clients = [] → s.reactions = [] → ∀ v ∈ r.servers, v.probePending = false) := by
+  intro r hf hm
+  obtain ⟨hinv, hle, hgone, hflag⟩ := exec_cancel_probes fuel s hp hf hm
+  have hno : r.nextKey = s.nextKey → ∀ v ∈ r.servers, v.probePending = false := by
+    intro hnk v hv
+    cases hpv : v.probePending with
+    | false => rfl
+    | true =>
+      obtain ⟨k, q, hk, hq, _⟩ := hflag v hv hpv
+      have := hinv.1 q (query?_mem hq)
+      rw [query?_key hq] at this
+      have hnk' : (exec fuel .cancel s).1.nextKey = s.nextKey := hnk
+      omega
+  refine ⟨hinv, hgone, hflag, hno, fun hc hr => hno ?_⟩
+  -- without compound requests and reactions a cancel creates no query
+  have h1 := exec_count s.nextKey s.reactSeq fuel .cancel s 0 ⟨hc, by omega⟩
+  have h2 : r.reactSeq = s.reactSeq := (exec_reactSeq fuel .cancel s hr).2
+  have h3 : r.nextKey + 0 + 2 * s.reactSeq ≤ s.nextKey + 2 * r.reactSeq := h1.2
+  have hle' : s.nextKey ≤ r.nextKey := hle
+  omega
+
+/-- **probe_early_failure_releases.**  The early failures of the probe's own `ares_send_nolock` — no server
+    configured, or the request does not serialise (`nocache = true` for a probe, `probe_only_when_eligible`; in the C
+    code also every out-of-memory exit before the query is linked: all of them `goto done` → callback, no
+    `end_query`) — run the owner's callback on the spot; for a probe that is `server_probe_cb(server pid)`: the result
+    is the state after the id draw with `probe_pending` of server `pid` reset (closed form, any fuel ≥ 2), so the
+    server can be probed again.  For every `go` the shape "`callback` of the owner, then return" is
+    `probe_request_flags` (first disjunct); for whole runs that continue into `ares_send_query`,
+    `probe_pending_has_probe` with `c := sendNolock … (.probe pid)`. -/
+theorem probe_early_failure_releases (fuel : Nat) (srv : Option Nat) (nocache noretry : Bool) (spec : ReqSpec)
+    (pid : Nat) (react : List Nat) (s : St) :
+    let s0 := (genQid 70000 s).2
+    let run := exec (fuel + 2) (.sendNolock srv nocache noretry spec (.probe pid) react) s
+    (s0.servers.isEmpty = true → run = (releaseProbe pid s0, .noserver)) ∧
+    (s0.servers.isEmpty = false → nocache = true → nameTextLen spec.name > 255 →
+      run = (releaseProbe pid s0, .formerr)) ∧
+    (∀ v ∈ (releaseProbe pid s0).servers, v.id = pid → v.probePending = false) ∧
+    (releaseProbe pid s0).servers.map (·.id) = s.servers.map (·.id) := by
+  intro s0 run
+  obtain ⟨h1, h2⟩ := exec_sendNolock_probe_early fuel srv nocache noretry spec pid react s
+  obtain ⟨h3, _, _, h4⟩ := releaseProbe_spec pid s0
+  refine ⟨h1, h2, h3, ?_⟩
+  rw [h4]
+  obtain ⟨o, f, e⟩ := genQid_shape 70000 s
+  show (genQid 70000 s).2.servers.map _ = _
+  rw [e]
 
 /- **one_probe_per_send** (full statement): for every fuel and state, the run of one `sendNolock` creates at most one
    probe query *of its own* — not counting the queries created by the requests that completion callbacks start during
@@ -394,7 +529,7 @@ def exStP : St := { exSt with cfg := { retryChance := 1 } }
     true, and the probe exists at the end -/
 example :
     let r := (execG 60 (.sendNolock none false false exSpec (.user 1) []) exStP).1
-    r.outOfFuel = false ∧ r.qs.map (fun q => (q.key, q.owner)) = [(0, .user 1), (1, .probe)] ∧ r.nextKey = 2 := by
+    r.outOfFuel = false ∧ r.qs.map (fun q => (q.key, q.owner)) = [(0, .user 1), (1, .probe 0)] ∧ r.nextKey = 2 := by
   decide
 
 end Cares.C09
